@@ -5,3 +5,5 @@ package nsqd
 import "io"
 
 func verifEOF() error { return io.EOF }
+
+func verifWriteFile(name string, data []byte) { osWriteFile(name, data) }
